@@ -438,7 +438,8 @@ class ProcessFactory:
         self.spawns: List[dict] = []
         self.children: List[FakeChild] = []
 
-    async def __call__(self, command, *, stdin=None, stdout=None, stderr=None, env=None, **kwargs):
+    async def __call__(self, command, *, stdin=-1, stdout=-1, stderr=-1, env=None, **kwargs):
+        # defaults as anyio.open_process has them: all three are subprocess.PIPE (-1) unless the caller says otherwise
         await checkpoint()
         idx = len(self.spawns)
         argv = list(command) if isinstance(command, (list, tuple)) else command
